@@ -339,6 +339,56 @@ prop("C09",
      note="trusts memcheck addressability tracking and ASan",
      design_ref="DESIGN.md#c09")
 
+
+# ----------------------------------------------------------------------------- C11 (function of API inputs only)
+GCC_O0 = LibCfg(name="gcc-O0", opt="-O0")
+GCC_O1 = LibCfg(name="gcc-O1", opt="-O1")
+GCC_O2 = LibCfg(name="gcc-O2", opt="-O2")
+CLANG_O0 = LibCfg(name="clang-O0", cc="clang", opt="-O0")
+CLANG_O2 = LibCfg(name="clang-O2", cc="clang", opt="-O2")
+
+def c11_units(tier):
+    q = tier == "quick"
+    n_vg = scale(tier, 250, 5000); n_p = scale(tier, 1500, 40000)
+    u = [Unit("c11-memcheck-O0", "c11.cpp", GCC_O0, cases=n_vg, shards=6 if q else 16, wrapper=VG, args=["--mode", "vg"]),
+         Unit("c11-memcheck-shipped", "c11.cpp", SHIPPED, cases=n_vg, shards=4 if q else 16, wrapper=VG, args=["--mode", "vg"]),
+         # same seeds, separate processes (different ASLR), different optimisation levels / compilers: digests must agree
+         Unit("c11-shipped-proc1", "c11.cpp", SHIPPED, cases=n_p, shards=4 if q else 16, args=["--mode", "paint"], digest_group="g"),
+         Unit("c11-shipped-proc2", "c11.cpp", SHIPPED, cases=n_p, shards=4 if q else 16, args=["--mode", "paint"], digest_group="g"),
+         Unit("c11-gcc-O0", "c11.cpp", GCC_O0, cases=n_p, shards=4 if q else 16, args=["--mode", "paint"], digest_group="g"),
+         Unit("c11-clang-O2", "c11.cpp", CLANG_O2, cases=n_p, shards=4 if q else 16, args=["--mode", "paint"], digest_group="g")]
+    if not q:
+        u += [Unit("c11-memcheck-O1", "c11.cpp", GCC_O1, cases=n_vg, shards=16, wrapper=VG, args=["--mode", "vg"]),
+              Unit("c11-memcheck-clang-O0", "c11.cpp", CLANG_O0, cases=n_vg, shards=16, wrapper=VG, args=["--mode", "vg"]),
+              Unit("c11-gcc-O1", "c11.cpp", GCC_O1, cases=n_p, shards=16, args=["--mode", "paint"], digest_group="g"),
+              Unit("c11-gcc-O2", "c11.cpp", GCC_O2, cases=n_p, shards=16, args=["--mode", "paint"], digest_group="g"),
+              Unit("c11-clang-O0", "c11.cpp", CLANG_O0, cases=n_p, shards=16, args=["--mode", "paint"], digest_group="g")]
+    return u
+
+prop("C11",
+     units=c11_units,
+     level="exploration",
+     rule=("generated API programs over every object kind (single-block, tweak histories, CTR and parallel histories with "
+           "in-between key lengths (35 %), short / NULL tweaks and counters, default counters, mid-stream changes, invalid calls, "
+           "life-cycle ops), each run once per back end. (a) inside memcheck on unoptimised (-O0: locals live in memory) and "
+           "shipped builds, caller-owned schedules and output buffers initially undefined: no uninitialised-value report during a "
+           "call, return value / outputs / active schedule image / handle fields defined afterwards. (b) native: identical "
+           "transcripts (returns, outputs, active images, public fields) with the stack below each call painted 00 / FF / 5A, "
+           "M_PERTURB 00 / A5 / 3C and caller-owned structs pre-filled differently; and identical per-case transcript digests "
+           "between two separate processes (different ASLR) and between gcc -O3, gcc -O0, clang -O2 (thorough: more) builds fed "
+           "the same case stream. Non-trivial = program has an in-between key length, a short/NULL tweak or counter, an init, or "
+           "a caller-owned schedule"),
+     assumptions=MODEL_ASSUME[:0] + BUILD_ASSUME + ["memcheck sees undefinedness only where it lives in memory: hence the -O0 / -O1 builds next to the shipped one",
+                  "stack painting alone is weak (the slot of an uninitialised local is usually rewritten by the previous callee); the cross-process "
+                  "and cross-optimisation digest comparisons are the strong part of (b)"],
+     technique="memcheck definedness monitor + metamorphic transcript equality (stack/heap paint, separate processes, -O levels, compilers) over rapidcheck-generated API programs",
+     text=("Two generated-input oracles: a definedness monitor (memcheck) on builds where locals live in memory, and transcript "
+           "equality across everything the property says must not matter (prior stack/heap/object contents, process, optimisation "
+           "level, compiler). Sampling of programs; uninitialised reads that happen to be masked in every explored configuration "
+           "would escape."),
+     note="trusts memcheck definedness tracking; digests compare every return value, output byte, active schedule image and public field",
+     design_ref="DESIGN.md#c11")
+
 # ----------------------------------------------------------------------------- generic entry points
 def run(pid, tier, seed, replay):
     p = PROPS[pid]
